@@ -6,3 +6,5 @@ CONSTRAINT ExportCase
 CHECK_DEADLOCK FALSE
 CONSTANTS MaxLen = 4
  Export = FALSE
+ Hdr = FALSE
+ NoV = TRUE
